@@ -1,4 +1,4 @@
-// want: [flat flat flat flat flat flat flat] [6 12953 8476 10667 3 20001 20001]
+// want: [flat flat flat flat flat flat flat flat flat] [6 12953 8476 10667 3 20001 20001 40002 20001]
 package main
 
 import (
@@ -165,6 +165,32 @@ func validateRange(p *probe, xs []int) Iter[int] {
 	return nil
 }
 
+// a nested counting loop with its own `:=` initialiser (hoisted into a block by pass 0) and a declaring block in the body
+func nestedInit(p *probe) Iter[int] {
+	n := 0
+	for i := 0; i <= hi; i++ {
+		p.at(i)
+		for j := 0; j < 2; j++ {
+			n++
+		}
+	}
+	Yield(n)
+	return nil
+}
+
+func declaringBlock(p *probe, xs []int) Iter[int] {
+	n := 0
+	for i, x := range xs {
+		p.at(i)
+		{
+			t := x - i
+			n += t + 1
+		}
+	}
+	Yield(n)
+	return nil
+}
+
 func drain(it Iter[int]) (last int, n int) {
 	for v := range it {
 		last = v
@@ -178,7 +204,7 @@ func main() {
 	for i := range xs {
 		xs[i] = i
 	}
-	ps := []*probe{{}, {}, {}, {}, {}, {}, {}}
+	ps := []*probe{{}, {}, {}, {}, {}, {}, {}, {}, {}}
 	var vals []int
 	v, _ := drain(nestedIf(ps[0]))
 	vals = append(vals, v)
@@ -193,6 +219,10 @@ func main() {
 	v, _ = drain(validateFor(ps[5], xs))
 	vals = append(vals, v)
 	v, _ = drain(validateRange(ps[6], xs))
+	vals = append(vals, v)
+	v, _ = drain(nestedInit(ps[7]))
+	vals = append(vals, v)
+	v, _ = drain(declaringBlock(ps[8], xs))
 	vals = append(vals, v)
 	fmt.Println(ps, vals)
 }
